@@ -45,7 +45,7 @@ fn gen_case(cs: u64, tier: Tier) -> Case {
     } else {
         FileSrc::Lib { program: {
             let big = r.chance(1, 5);
-            gen_program(&mut r, &GenProgOpts { max_pages: 3, tricky_text: false, images: true, big_images: big, rich: false })
+            gen_program(&mut r, &GenProgOpts { max_pages: 3, tricky_text: false, images: true, big_images: big, rich: false, tricky_names: false })
         }, compress: r.chance(1, 2) }
     };
     let source = if r.chance(1, 3) { gen_source_plan(&mut r, 1, 60, 4096) } else { SourcePlan::default() };
